@@ -49,6 +49,9 @@ func (r *renderer) ref(tr *TypeRef) string {
 		base = "(" + base + ")"
 	}
 	if tr.Ptr {
+		if tr.ParenAll {
+			return "(*" + base + ")"
+		}
 		return "*" + base
 	}
 	return base
